@@ -212,7 +212,7 @@ func bulkPlans(seed uint64) []*Plan {
 	var plans []*Plan
 	for bi, cfg := range []struct {
 		n, size int
-		mode   string
+		mode    string
 	}{{36, 1 << 20, EvRunD}, {20, 1 << 19, EvRunP}} {
 		r := detsim.NewRand(detsim.Mix(seed, "C19/bulk", uint64(bi)))
 		p := &Plan{Prop: "C19", Case: fmt.Sprintf("bulk-bytes|%dx%d|%s", cfg.n, cfg.size, cfg.mode)}
